@@ -814,7 +814,7 @@ fn notation_position_inner() -> BoxedStrategy<String> {
         2 => gen::pin_check_theme().prop_map(|r| gen::build(&r).fen()),
         2 => gen::promo_theme().prop_map(|r| gen::build(&r).fen()),
         2 => gen::ep_theme().prop_map(|r| gen::build(&r).fen()),
-        2 => gen::pre_double_step(),
+        4 => gen::pre_double_step(),
         2 => gen::castle_theme().prop_map(|r| gen::build(&r).fen()),
         1 => gen::cage_theme().prop_map(|r| gen::build(&r).fen()),
         2 => gen::material_extreme().prop_map(|r| gen::build(&r).fen()),
@@ -908,7 +908,7 @@ impl Prop for C13Positions {
         notation_position()
     }
     fn cases(&self, tier: Tier) -> u32 {
-        tier.pick(8_000, 200_000)
+        tier.pick(24_000, 400_000)
     }
     fn test(&self, fen: &String, st: &mut Stats) -> TestResult {
         let pos = Pos::from_fen(fen).map_err(Failure::new)?;
